@@ -51,7 +51,7 @@ def run(chk, unit="asmjit/core/codeholder.cpp", rule="R-PADDING-TO-NONEMPTY"):
             if l is not None and r is not None and r.get("cv") == 0 and (l.get("did") in size_locals or (l["k"] == "mcall" and l.get("cn") == "real_size")):
                 nz = holds if x["op"] in ("!=", ">") else not holds
         return [("nonempty",)] if nz else ()
-    m = Must(fn, None, edge)
+    m = Must(fn, None, edge, resolve_locals=True)       # `bool is_empty = real_size == 0; if (is_empty) continue;`
     n = 0
     for i, x in sorted(fn.ex.items()):
         if x["k"] == "binop" and x["op"] == "=":
